@@ -63,8 +63,25 @@ impl SimCfg {
             _ => rng.random_range(2..=5),
         };
         let (cluster_of, cluster_ids) = if profile == Profile::TwoClusters {
-            const IDS: [(&str, &str); 7] = [("", "a"), ("a", "A"), ("a", "ab"), ("ab", "a"), ("cluster", "cluster "), ("c", "d"), ("é", "e")];
+            const IDS: [(&str, &str); 11] = [
+                ("", "a"),
+                ("a", "A"),
+                ("a", "ab"),
+                ("ab", "a"),
+                ("cluster", "cluster "),
+                ("c", "d"),
+                ("é", "e"),
+                // long ids that differ only after a long common prefix / only in the last byte
+                ("quickwit-production-eu-west-1-search-blue", "quickwit-production-eu-west-1-search-green"),
+                ("0123456789abcdef0123456789abcdef0123456789abcdef0123456789abcdef-x", "0123456789abcdef0123456789abcdef0123456789abcdef0123456789abcdef-y"),
+                ("prod", "prod-eu"),
+                ("prod\u{0}", "prod"),
+            ];
             let (x, y) = IDS[rng.random_range(0..IDS.len())];
+            // every fourth trace: ids of 300 bytes differing in the last one
+            let long_a = format!("{}a", "z".repeat(299));
+            let long_b = format!("{}b", "z".repeat(299));
+            let (x, y) = if rng.random_range(0..4) == 0 { (long_a.as_str(), long_b.as_str()) } else { (x, y) };
             let na = rng.random_range(1..n_slots.min(4));
             let cl: Vec<usize> = (0..n_slots).map(|i| if i < na { 0 } else { 1 }).collect();
             (cl, vec![x.to_string(), y.to_string()])
@@ -1010,8 +1027,12 @@ impl World {
         // C07: each node delta is exactly the sender's entries in (from, delta max], ascending
         if !nodes.is_empty() {
             let cc = self.slots[slot].cc.as_ref().unwrap();
+            let sched_now: Vec<ChitchatId> = cc.scheduled_for_deletion_nodes().cloned().collect();
             for nd in &nodes {
                 let id = cid(&nd.id);
+                if sched_now.contains(&id) {
+                    self.findings.push(Finding::new(&["C07", "C12"], "delta.scheduled_member", format!("slot{slot}: a {} carries a delta for {id:?}, which the sender has scheduled for deletion", codec::msg_kind(&wmsg))));
+                }
                 let Some(ns) = cc.node_state(&id) else {
                     self.findings.push(Finding::new(&["C07", "C03"], "delta.unknown_member", format!("slot{slot}: delta about a member the sender does not hold: {id:?}")));
                     continue;
